@@ -5,37 +5,351 @@ import ClusterVerif.Gen.C16
 /-!
 # C16 — the IPFS connector reports success only when the daemon reached the asked state
 
-Property theorems only (helper lemmas are in `Lemmas/C16.lean`).  All of them
-are about `run`, the model of `Connector.Pin / Unpin / PinLsCid` talking to a
-daemon with an arbitrary pin table and an arbitrary script of per-request
-behaviours; none has a size bound.
+Property theorems only (helper lemmas are in `Lemmas/C16.lean`, `Lemmas/C16Http.lean`).
+
+**HTTP layer** (`doPostCtx` / `checkResponse` / `postCtx`, interpreted from the decision tables the
+translator regenerates from the source): `gen_tables_understood`, `doPost_passes_through`,
+`post_success_iff`, `post_success_wire_iff`, `post_ipfs_error_iff`, `post_nil_body_iff`,
+`check_success_iff`, `http_ctype_irrelevant`; every connector method's success rests on it:
+`ls_found_rests_on_post`, `rm_ok_rests_on_post`, `upd_ok_rests_on_post`, `add_ok_rests_on_http`.
+
+**Lookups**: `gen_lookup_sites_modelled` (every PinLsCid / PinLs call site of the source is one the
+model knows), `skip_only_if_confirmed`, `filter_ignoring_source_breaks_direct_update`.
+
+**The conversation** (`run`: `Connector.Pin / Unpin / PinLsCid` talking to a daemon with an arbitrary
+pin table and an arbitrary script of per-request behaviours from the product space status code ×
+content type × body shape × transport; no size bound):
 
 * `pin_success_sound`, `unpin_success_sound`, `ls_truthful`
 * `errors_reported`
 * `no_request_when_already`, `unpin_absent_ok`
-* `stall_times_out_partial`
+* `stall_times_out` (full since the repair of K28: pin/update runs under the pin timeout)
 * `update_only_if_recursive`, `update_unpin_false`, `source_kept`
 * `run_returns`
-* `allowed_holds_partial` — every output the model admits satisfies every clause
-  of `Spec.C16`, outside the one recorded finding (a stalled pin/update);
-* `holds_iff` — the Bool checker `holds` read as a proposition;
-* `C16_full_fails_updateStall`, `C16_full_fails` — with that finding the full
-  statement is false, with a concrete witness (replayed on the implementation by
-  the corpus).
-
-(The error object inside a 200 progress stream, formerly a second finding, is
-repaired in `pinProgress`; `serr` now yields an error in the model and the
-theorems no longer carry a hypothesis about it.)
+* `allowed_holds` — every output the model admits satisfies every clause of `Spec.C16`;
+* `holds_iff` — the Bool checker `holds` read as a proposition.
 -/
 namespace CV.C16
-
-/-- the recorded finding: the pin/update of this run is answered by a stall -/
-def updateStalled (i : Input) : Bool :=
-  (servedT i (run i).trace).any (fun x => (match x.1 with | .upd .. => true | _ => false) && x.2 == .stall)
 
 /-- the model's output as an observation -/
 def obs (i : Input) (sw : List Nat) : Output :=
   ⟨(run i).res, (run i).trace, sw, (run i).final⟩
+
+/-! ### the HTTP layer -/
+
+/-- the translator understood every statement, test and result of the three helpers -/
+theorem gen_tables_understood :
+    Gen.doPostCtxDec.all Dec.Path.known = true ∧ Gen.checkResponseDec.all Dec.Path.known = true ∧
+      Gen.postCtxDec.all Dec.Path.known = true := by decide
+
+/-- `doPostCtx` hands on the response and the error of the round trip, whatever else it tests -/
+theorem doPost_passes_through :
+    ∀ p ∈ Gen.doPostCtxDec, p.val = .response ∧ p.err = .ev .doErr := by decide
+
+/-- `postCtx` returns a nil error exactly when response headers arrived, the status code is 200 (no
+other 2xx, no 3xx) and the body could be read to its end; it then returns that body. -/
+theorem post_success_iff (f : Facts) :
+    (post f).err = .none ↔ (f.doErr = false ∧ f.status = 200 ∧ f.readErr = false) := by
+  rw [post_eq]
+  unfold postRef
+  split_ifs <;> simp_all
+
+theorem post_success_body (f : Facts) (h : (post f).err = .none) : (post f).body = .body :=
+  post_ok_body f h
+
+/-- … in terms of what is on the wire: status 200 and everything arrives; the content type and the
+shape of the body play no part -/
+theorem post_success_wire_iff (b : Beh) :
+    (post b.facts).err = .none ↔ (b.status = 200 ∧ b.transport = .full) := post_ok_iff b
+
+/-- an `ipfsError` (the only error whose text `Unpin` reads, and the only one `PinLsCid` takes for "not
+pinned") comes back exactly for a completely received non-200 reply whose body is a JSON object with a
+string `Message` (or none), or `null`; the body is handed back with it. -/
+theorem post_ipfs_error_iff (b : Beh) :
+    (post b.facts).err = .ipfs ↔ (b.status ≠ 200 ∧ b.transport = .full ∧ b.body.decodesAsErrObj = true) :=
+  post_ipfs_iff b
+
+/-- every other failure (no response, non-200 with an undecodable / empty / cut-off body, a 200 body
+cut short) comes back with a nil body: the test `PinLsCid` uses for "the daemon is down" -/
+theorem post_nil_body_iff' (f : Facts) :
+    ((post f).body = .nil ∧ (post f).err ≠ .none) ↔
+      ((post f).err = .transport ∨ (post f).err = .generic ∨ (post f).err = .read) := post_nil_body_iff f
+
+/-- `checkResponse` alone (as `pinProgress` uses it, before reading the stream) passes exactly status 200 -/
+theorem check_success_iff (f : Facts) : (check f).err = .none ↔ f.status = 200 := check_ok_iff f
+
+theorem http_ctype_irrelevant (a : Bool) (b : Beh) (c : CType) :
+    clsAt a ⟨b.status, c, b.body, b.transport⟩ = clsAt a b ∧
+    clsFirst ⟨b.status, c, b.body, b.transport⟩ = clsFirst b ∧
+    post (Beh.facts ⟨b.status, c, b.body, b.transport⟩) = post b.facts := ctype_irrelevant a b c
+
+/-! ### every method's success rests on the HTTP layer -/
+
+/-- `PinLsCid` reports a pin as found only from a `postCtx` success whose body lists the CID -/
+theorem ls_found_rests_on_post (t : Table) (c : Nat) (tr : Bool) (b : Beh) (s : PState)
+    (h : lsCid t c tr (clsFirst b) = .status s) (hs : s ≠ .u) :
+    (post b.plain.facts).err = .none ∧ (b.plain.body = .expected ∨ b.plain.body = .expectedAny) := by
+  rcases lsCid_found_cls _ _ _ _ _ h hs with hk | hk
+  · obtain ⟨h1, h2, h3⟩ := (clsPost_honest_iff b.plain).1 hk
+    exact ⟨(post_ok_iff _).2 ⟨h1, h2⟩, Or.inl h3⟩
+  · obtain ⟨h1, h2, h3⟩ := (clsPost_honestAny_iff b.plain).1 hk
+    exact ⟨(post_ok_iff _).2 ⟨h1, h2⟩, Or.inr h3⟩
+
+/-- `Unpin` returns nil only from a `postCtx` success, or from an `ipfsError` carrying exactly the
+ErrNotPinned text (third case: the reply that got lost was the daemon's own "not pinned" refusal) -/
+theorem rm_ok_rests_on_post (t : Table) (c : Nat) (b : Beh) (h : (rmCall t c b).1 = .ok) :
+    (post b.plain.facts).err = .none ∨
+    ((post b.plain.facts).err = .ipfs ∧ b.plain.body = .errObj .notPinned) ∨
+    (rmHonest t c = none ∧ clsAt false b = .lostReply) := by
+  have hsucc := clsPost_success_iff b.plain
+  rcases rmCall_ok_cls _ _ _ h with hk | hk | hk | ⟨hk, hn⟩
+  · left
+    rcases clsAt_false_eq b with he | ⟨_, he⟩
+    · exact (post_ok_iff _).2 (hsucc.1 (Or.inl (he ▸ hk)))
+    · exact (post_ok_iff _).2 (hsucc.1 (Or.inr (Or.inl he)))
+  · left
+    rcases clsAt_false_eq b with he | ⟨he, _⟩
+    · exact (post_ok_iff _).2 (hsucc.1 (Or.inr (Or.inr (he ▸ hk))))
+    · rw [he] at hk; cases hk
+  · right; left
+    rcases clsAt_false_eq b with he | ⟨he, _⟩
+    · obtain ⟨h1, h2, h3⟩ := (clsPost_notPinned_iff b.plain).1 (he ▸ hk)
+      exact ⟨(post_ipfs_iff _).2 ⟨h1, h2, by simp [h3, Body.decodesAsErrObj]⟩, h3⟩
+    · rw [he] at hk; cases hk
+  · exact Or.inr (Or.inr ⟨hn, hk⟩)
+
+/-- `pinUpdate` returns nil only from a `postCtx` success -/
+theorem upd_ok_rests_on_post (t : Table) (f c : Nat) (b : Beh) (h : (updCall t f c b).1 = .ok) :
+    (post b.plain.facts).err = .none := by
+  have hsucc := clsPost_success_iff b.plain
+  rcases updCall_ok_cls _ _ _ _ h with hk | hk
+  · rcases clsAt_false_eq b with he | ⟨_, he⟩
+    · exact (post_ok_iff _).2 (hsucc.1 (Or.inl (he ▸ hk)))
+    · exact (post_ok_iff _).2 (hsucc.1 (Or.inr (Or.inl he)))
+  · rcases clsAt_false_eq b with he | ⟨he, _⟩
+    · exact (post_ok_iff _).2 (hsucc.1 (Or.inr (Or.inr (he ▸ hk))))
+    · rw [he] at hk; cases hk
+
+/-- `pinProgress` returns nil only when the round trip gave a response, `checkResponse` passed it
+(status 200), the stream arrived to its end and carried neither an error object nor garbage -/
+theorem add_ok_rests_on_http (t : Table) (c : Nat) (d : Int) (b : Beh) (h : (addCall t c d b).1 = .ok) :
+    (doPost b.facts).err = .none ∧ (check b.facts).err = .none ∧ b.transport = .full ∧
+      (b.body = .expected ∨ b.body = .expectedAny ∨ b.body = .otherObj ∨ b.body = .jnull ∨ b.body = .empty ∨
+        b.body = .slow) := by
+  have hk := (addCall_ok_cls _ _ _ _ h).1
+  simp only [clsAt, if_true] at hk
+  obtain ⟨h1, h2, h3⟩ := (clsAdd_success_iff b).1 hk
+  refine ⟨?_, (check_ok_iff _).2 h1, h2, h3⟩
+  rw [doPost_eq]
+  simp [doPostRef, Beh.facts, h2]
+
+/-! ### lookups: a request is skipped only on a confirmation -/
+
+/-- what a lookup site of the source means in the model -/
+structure SiteSem where
+  ownCid : Bool          -- the pin's own CID (else the update source)
+  filterFromDepth : Bool -- `type=` from the pin's MaxDepth (else from its Mode, through `PinWithOpts`)
+  wantRecursive : Bool   -- the test is IsPinned(-1) (else IsPinned(maxDepth))
+  errReturned : Bool     -- an error of the lookup ends the call
+  skipsAdd : Bool        -- on a positive test no pin/add is sent (`return nil` / `return pinUpdate`)
+  deriving DecidableEq, Repr
+
+def siteSem (s : Dec.LookupSite) : Option SiteSem :=
+  if s = ⟨"Pin", "PinLsCid", "pin", "", true, "status.IsPinned(maxDepth)", "return nil"⟩ then
+    some ⟨true, true, false, true, true⟩
+  else if s = ⟨"Pin", "PinLsCid", "fromPin", "api.PinWithOpts(from, pin.PinOptions)", false, "status.IsPinned(-1)",
+      "return ipfs.pinUpdate(ctx, from, pin.Cid)"⟩ then
+    some ⟨false, false, true, false, true⟩
+  else none
+
+/-- the decision taken at a site, for the daemon answer `b` -/
+def siteDecision (sem : SiteSem) (i : Input) (f : Nat) (b : Beh) : Bool :=
+  if sem.ownCid then lsCid i.table i.cid (typeRec i.depth) (clsFirst b) == .status (asked i.depth)
+  else lsCid i.table f i.modeRec (clsFirst b) == .status .r
+
+/-- what the daemon must hold for the decision to be right -/
+def siteConfirmed (sem : SiteSem) (i : Input) (f : Nat) : Bool :=
+  if sem.ownCid then i.table i.cid == wanted i.depth else i.table f == .r
+
+/-- every place where the source consults PinLsCid / PinLs is one of the two the model has: the
+short-cut of `Pin` and the source check before pin/update (a new probe breaks this theorem) -/
+theorem gen_lookup_sites_modelled :
+    Gen.lookupSites.map siteSem = [some ⟨true, true, false, true, true⟩, some ⟨false, false, true, false, true⟩] := by
+  decide
+
+/-- At every lookup site of the source, for every daemon answer of the product space (error objects,
+garbage, cut or stalled replies, listings that ignore the `type=` filter): the decision not to send
+pin/add is taken only when the daemon holds the CID in the mode the site asks about. -/
+theorem skip_only_if_confirmed :
+    ∀ s ∈ Gen.lookupSites, ∃ sem, siteSem s = some sem ∧
+      ∀ (i : Input) (f : Nat) (b : Beh), siteDecision sem i f b = true → siteConfirmed sem i f = true := by
+  intro s hs
+  have hm := gen_lookup_sites_modelled
+  simp only [Gen.lookupSites, List.map_cons, List.map_nil, List.cons.injEq, and_true] at hm
+  simp only [Gen.lookupSites, List.mem_cons, List.not_mem_nil, or_false] at hs
+  rcases hs with rfl | rfl
+  · refine ⟨_, hm.1, ?_⟩
+    intro i f b h
+    simp only [siteDecision, if_true, beq_iff_eq] at h
+    simp only [siteConfirmed, if_true, beq_iff_eq, wanted_eq_asked]
+    exact lsCid_asked _ _ _ _ h
+  · refine ⟨_, hm.2, ?_⟩
+    intro i f b h
+    simp only [siteDecision, Bool.false_eq_true, if_false, beq_iff_eq] at h
+    simp only [siteConfirmed, Bool.false_eq_true, if_false, beq_iff_eq]
+    exact (lsCid_r_any _ _ _ _ h).1
+
+/-- … and these are the decisions `Pin` takes: a run of `Pin` that sends no pin/add either stopped at
+the failed first lookup, or took the short-cut (site 1), or went through pin/update (site 2) -/
+theorem pin_without_add (i : Input) (hop : i.op = .pin)
+    (hno : ∀ r ∈ (run i).trace, r.isAdd = false) :
+    (run i).res = .err ∨
+    siteDecision ⟨true, true, false, true, true⟩ i 0 (i.beh 0) = true ∨
+    (∃ f, i.src = some f ∧ siteDecision ⟨false, false, true, false, true⟩ i f (i.beh 1) = true) := by
+  simp only [run, hop] at hno ⊢
+  rcases pin_cases i with ⟨_, hp⟩ | ⟨h0, hp⟩ | ⟨s, h0, hs, hsrc, hp⟩ | ⟨s, f, h0, hs, hsrc, hu, hp⟩ |
+      ⟨s, f, h0, hs, hsrc, hu, hp⟩ <;> rw [hp] at hno ⊢
+  · exact Or.inl rfl
+  · right; left; simp [siteDecision, h0]
+  · have := hno (addReq i.cid i.depth) (by simp)
+    simp at this
+  · right; right; exact ⟨f, hsrc, by simp [siteDecision, hu]⟩
+  · have := hno (addReq i.cid i.depth) (by simp)
+    simp at this
+
+/-- The source lookup relies on the daemon honouring `type=`: a depth-0 pin (Mode direct) with an update
+source that a filter-ignoring daemon lists as recursive goes through pin/update and is reported as done
+although the CID is now pinned recursively.  go-ipfs honours the filter; the case is outside `wf`. -/
+def witnessFilterIgnoringSource : Input :=
+  { op := .pin, n := 2, cid := 0, depth := 0, modeRec := false, src := some 1, norig := 0,
+    unpinDisable := false, table := fun c => if c = 1 then .r else .u,
+    script := [Beh.ok, ⟨200, .json, .expectedAny, .full⟩, Beh.ok] }
+
+theorem filter_ignoring_source_breaks_direct_update :
+    wf witnessFilterIgnoringSource = false ∧ (run witnessFilterIgnoringSource).res = .ok ∧
+      (run witnessFilterIgnoringSource).trace = [.ls 0 false, .ls 1 false, .upd 1 0 false] ∧
+      (run witnessFilterIgnoringSource).final 0 = .r ∧ wanted witnessFilterIgnoringSource.depth = .d := by
+  decide
+
+/-! ### the rest of the connector: BlockGet, BlockPut, Resolve, SwarmPeers, RepoGC, ConfigKey -/
+
+macro "aux_cases" i:ident : tactic => `(tactic| (
+  obtain ⟨op, ⟨s, ct, body, tr⟩, v⟩ := $i
+  by_cases h200 : s = 200
+  · subst h200
+    cases op <;> rcases tr with _ | _ | _ | ⟨_ | _⟩ | _ <;>
+    rcases body with _ | _ | ⟨_ | _ | _ | _⟩ | _ | _ | _ | _ | _ | _ | _ | _ | _ | _ <;>
+      simp (config := {decide := true}) [Aux.run, Aux.readBody, Aux.gcStream, Aux.Beh.stallsAux, Aux.Res.isOk,
+        post_eq, doPost_eq, check_eq, postRef, doPostRef, checkRef, Beh.facts, Body.decodesAsErrObj] <;>
+      (try split_ifs) <;> (try simp_all (config := {decide := true})) <;> (try omega)
+  · have h200' : (s == 200) = false := by simp [h200]
+    cases op <;> rcases tr with _ | _ | _ | ⟨_ | _⟩ | _ <;>
+    rcases body with _ | _ | ⟨_ | _ | _ | _⟩ | _ | _ | _ | _ | _ | _ | _ | _ | _ | _ <;>
+      simp (config := {decide := true}) [Aux.run, Aux.readBody, Aux.gcStream, Aux.Beh.stallsAux, Aux.Res.isOk,
+        post_eq, doPost_eq, check_eq, postRef, doPostRef, checkRef, Beh.facts, Body.decodesAsErrObj, h200, h200']))
+
+/-- none of the six methods reports success unless the daemon's reply had status 200 and arrived
+completely: for the five that go through `postCtx` that is `post_success_iff`; `RepoGC` calls
+`doPostCtx` and `checkResponse` itself -/
+theorem aux_success_sound (i : Aux.In) (h : (Aux.run i).isOk = true) :
+    i.beh.status = 200 ∧ i.beh.transport = .full ∧ (post i.beh.facts).err = .none := by
+  revert h
+  aux_cases i
+
+/-- BlockPut: success only if the reply carries a key that parses as a CID -/
+theorem blockput_success_sound (i : Aux.In) (hop : i.op = .blockPut) (h : (Aux.run i).isOk = true) :
+    (post i.beh.facts).err = .none ∧ (i.beh.body = .expected ∨ i.beh.body = .expectedAny) := by
+  revert h hop
+  aux_cases i
+
+/-- Resolve: success only with a parsed `/ipfs/<cid>` path, and the CID returned is that one -/
+theorem resolve_success_sound (i : Aux.In) (hop : i.op = .resolve) (a b : Nat) (h : Aux.run i = .ok a b) :
+    (post i.beh.facts).err = .none ∧ (i.beh.body = .expected ∨ i.beh.body = .expectedAny) ∧ a = 1 := by
+  revert h hop
+  aux_cases i
+
+/-- RepoGC: a refusal of the daemon (any status but 200, e.g. 500 with an error object) is an error,
+not a list with one nameless key (the defect repaired in this round) -/
+theorem repogc_refusal_is_error (i : Aux.In) (hop : i.op = .repoGC) (hs : i.beh.status ≠ 200) :
+    Aux.run i = .err := by
+  revert hs hop
+  aux_cases i
+
+/-- RepoGC keeps the per-key errors the daemon streams -/
+theorem repogc_errors_kept (i : Aux.In) (hop : i.op = .repoGC) (hb : i.beh.body = .expected) (hv : i.variant % 3 = 1)
+    (a b : Nat) (h : Aux.run i = .ok a b) : a = 2 ∧ b = 1 := by
+  revert h hv hb hop
+  aux_cases i
+
+/-- a well-formed success reply is reported as a success -/
+theorem aux_good_reply_ok (i : Aux.In) (h1 : i.beh.status = 200) (h2 : i.beh.transport = .full)
+    (h3 : i.beh.body = .expected)
+    (hop : i.op = .blockGet ∨ i.op = .blockPut ∨ i.op = .resolve ∨ i.op = .repoGC) : (Aux.run i).isOk = true := by
+  revert hop h3 h2 h1
+  aux_cases i
+
+theorem aux_returns (i : Aux.In) : Aux.run i ≠ .hang ∧ Aux.run i ≠ .panic ∧ Aux.run i ≠ .errctx := by
+  aux_cases i
+
+/-- every clause of the Spec for these methods holds of the model, for every reply of the product space -/
+theorem aux_holds (i : Aux.In) : Aux.holds i (Aux.run i) = true := by
+  have c1 : Aux.cSuccessSound i (Aux.run i) = true := by
+    unfold Aux.cSuccessSound
+    cases h : (Aux.run i).isOk
+    · simp
+    · obtain ⟨a, b, _⟩ := aux_success_sound i h
+      simp [a, b]
+  have c2 : Aux.cResolveCid i (Aux.run i) = true := by
+    unfold Aux.cResolveCid
+    cases h : Aux.run i with
+    | ok a b =>
+      by_cases hop : i.op = .resolve
+      · simp [hop, (resolve_success_sound i hop a b h).2.2]
+      · simp [hop]
+    | _ => rfl
+  have c3 : Aux.cGcErrorsKept i (Aux.run i) = true := by
+    unfold Aux.cGcErrorsKept
+    cases h : Aux.run i with
+    | ok a b =>
+      by_cases hc : i.op = .repoGC ∧ i.beh.body = .expected ∧ i.variant % 3 = 1
+      · obtain ⟨ha, hb⟩ := repogc_errors_kept i hc.1 hc.2.1 hc.2.2 a b h
+        simp [ha, hb]
+      · simp only [Bool.or_eq_true, Bool.not_eq_true', Bool.and_eq_false_iff, beq_eq_false_iff_ne, ne_eq]
+        left
+        by_cases h1 : i.op = .repoGC
+        · by_cases h2 : i.beh.body = .expected
+          · right; intro h3; exact hc ⟨h1, h2, by simpa using h3⟩
+          · left; right; simpa using h2
+        · left; left; simpa using h1
+    | _ => rfl
+  have c4 : Aux.cGoodReplyOk i (Aux.run i) = true := by
+    unfold Aux.cGoodReplyOk
+    by_cases hc : i.beh.status = 200 ∧ i.beh.transport = .full ∧ i.beh.body = .expected ∧
+        (i.op = .blockGet ∨ i.op = .blockPut ∨ i.op = .resolve ∨ i.op = .repoGC)
+    · simp [aux_good_reply_ok i hc.1 hc.2.1 hc.2.2.1 hc.2.2.2]
+    · simp only [Bool.or_eq_true, Bool.not_eq_true', Bool.and_eq_false_iff, beq_eq_false_iff_ne, ne_eq,
+        Bool.or_eq_false_iff]
+      left
+      by_cases h1 : i.beh.status = 200
+      · by_cases h2 : i.beh.transport = .full
+        · by_cases h3 : i.beh.body = .expected
+          · right
+            have h4 : ¬ (i.op = .blockGet ∨ i.op = .blockPut ∨ i.op = .resolve ∨ i.op = .repoGC) :=
+              fun h4 => hc ⟨h1, h2, h3, h4⟩
+            simp only [not_or] at h4
+            simpa [and_assoc] using h4
+          · left; right; simpa using h3
+        · left; left; right; simpa using h2
+      · left; left; left; simpa using h1
+  have c5 : Aux.cReturns (Aux.run i) = true := by
+    have := aux_returns i
+    simp [Aux.cReturns, this]
+  simp [Aux.holds, Aux.clauses, c1, c2, c3, c4, c5]
+
+example : Aux.run ⟨.repoGC, ⟨200, .json, .expected, .full⟩, 1⟩ = .ok 2 1 ∧
+    Aux.run ⟨.repoGC, ⟨500, .json, .errObj .other, .full⟩, 0⟩ = .err ∧
+    Aux.run ⟨.resolve, ⟨200, .json, .otherObj, .full⟩, 0⟩ = .err ∧
+    Aux.run ⟨.swarmPeers, ⟨200, .json, .expected, .full⟩, 2⟩ = .err := by decide
 
 /-! ### success only if the daemon reached the asked state -/
 
@@ -52,10 +366,12 @@ theorem pin_success_sound (i : Input) (hw : wf i = true) (hop : i.op = .pin)
     exact addCall_ok _ _ _ _ h
   · rw [hp] at h ⊢
     have hr := updCall_ok _ _ _ _ h
-    obtain ⟨_, hm⟩ := lsCid_r _ _ _ _ (clsAt_ne_honestAny _ _) hu
+    obtain ⟨_, hm⟩ := lsCid_r_any _ _ _ _ hu
     have hd : i.depth ≠ 0 := by
       intro hd
-      simp [wf, hsrc, hm, hd] at hw
+      by_cases hk : clsFirst (i.beh 1) = .honestAny
+      · simp [wf, hsrc, hd, hk, hop] at hw
+      · simp [wf, hsrc, hm hk, hd] at hw
     simp only [hr, asked, hd, if_false]
   · rw [hp] at h ⊢
     exact addCall_ok _ _ _ _ h
@@ -123,7 +439,7 @@ theorem update_only_if_recursive (i : Input) (f t : Nat) (u : Bool) (h : Req.upd
     rcases pin_cases i with ⟨_, hp⟩ | ⟨h0, hp⟩ | ⟨s, h0, hs, hsrc, hp⟩ | ⟨s, f', h0, hs, hsrc, hu, hp⟩ |
         ⟨s, f', h0, hs, hsrc, hu, hp⟩ <;> rw [hp] at h <;> simp [addReq] at h
     obtain ⟨rfl, rfl, _⟩ := h
-    exact ⟨rfl, hsrc, rfl, (lsCid_r _ _ _ _ (clsAt_ne_honestAny _ _) hu).1⟩
+    exact ⟨rfl, hsrc, rfl, (lsCid_r_any _ _ _ _ hu).1⟩
 
 /-- … and always with `unpin=false` -/
 theorem update_unpin_false (i : Input) (f t : Nat) (u : Bool) (h : Req.upd f t u ∈ (run i).trace) :
@@ -218,21 +534,20 @@ theorem errors_reported (i : Input)
 
 /-! ### a pin that makes no progress is given up -/
 
-/-- a pin/add that stalls, or whose progress number stops rising, makes `Pin` return an error by
-itself (outside the recorded finding: the stalled pin/update) -/
-theorem stall_times_out_partial (i : Input) (hop : i.op = .pin) (hk : updateStalled i = false)
+/-- a pin/add that stalls or whose progress number stops rising, and a pin/update that is not
+answered, make `Pin` return an error by itself -/
+theorem stall_times_out (i : Input) (hop : i.op = .pin)
     (hs : (servedT i (run i).trace).any (fun x => isPinning x.1 && (x.2 == .stall || x.2 == .noProgress)) = true) :
     (run i).res = .err := by
-  unfold updateStalled at hk
-  simp only [run, hop] at hs hk ⊢
+  simp only [run, hop] at hs ⊢
   rcases pin_cases i with ⟨_, hp⟩ | ⟨h0, hp⟩ | ⟨s, h0, hs', hsrc, hp⟩ | ⟨s, f, h0, hs', hsrc, hu, hp⟩ |
-      ⟨s, f, h0, hs', hsrc, hu, hp⟩ <;> rw [hp] at hs hk ⊢
+      ⟨s, f, h0, hs', hsrc, hu, hp⟩ <;> rw [hp] at hs ⊢
   · simp [servedT, List.zipIdx, isPinning] at hs
   · simp [servedT, List.zipIdx, Req.isAdd, addReq, isPinning] at hs
     exact addCall_of_stall _ _ _ _ hs
-  · simp [servedT, List.zipIdx, Req.isAdd, isPinning] at hs hk
+  · simp [servedT, List.zipIdx, Req.isAdd, isPinning] at hs
     rcases hs with hs | hs
-    · exact absurd hs hk
+    · exact updCall_of_stall _ _ _ _ hs
     · exact absurd hs (clsAt_false_ne_noProgress _)
   · simp [servedT, List.zipIdx, Req.isAdd, addReq, isPinning] at hs
     exact addCall_of_stall _ _ _ _ hs
@@ -263,11 +578,8 @@ theorem run_returns (i : Input) : (run i).res ≠ .hang ∧ (run i).res ≠ .pan
 
 /-- C16 at full strength: whatever the real connector may show according to the model satisfies the
 property, for every pin, prior pin table and script of daemon behaviours in the quantifier's domain. -/
-def C16_full : Prop := ∀ (i : Input) (o : Output), wf i = true → allowed i o = true → holds i o = true
-
-/-- C16 outside the recorded finding (stalled pin/update). -/
-theorem allowed_holds_partial (i : Input) (o : Output) (hw : wf i = true) (ha : allowed i o = true)
-    (hk2 : updateStalled i = false) : holds i o = true := by
+theorem allowed_holds (i : Input) (o : Output) (hw : wf i = true) (ha : allowed i o = true) :
+    holds i o = true := by
   simp only [allowed, Bool.and_eq_true, beq_iff_eq, List.all_eq_true, List.mem_range] at ha
   obtain ⟨⟨⟨hres, htr⟩, hfin⟩, hsw⟩ := ha
   have hcid : i.cid < i.n := by
@@ -276,7 +588,7 @@ theorem allowed_holds_partial (i : Input) (o : Output) (hw : wf i = true) (ha : 
   have hfs : ∀ s, i.src = some s → o.final s = (run i).final s := by
     intro s hs
     simp only [wf, hs, Bool.and_eq_true, decide_eq_true_eq] at hw
-    exact hfin _ hw.1.2.1
+    exact hfin _ hw.1.2.1.1
   have c1 : cPinSound i o = true := by
     unfold cPinSound; rw [hres, hfc]
     by_cases h : (i.op == .pin && (run i).res == .ok) = true
@@ -317,7 +629,7 @@ theorem allowed_holds_partial (i : Input) (o : Output) (hw : wf i = true) (ha : 
         (fun x => isPinning x.1 && (x.2 == .stall || x.2 == .noProgress))) = true
     · have h' : i.op = .pin ∧ (servedT i (run i).trace).any
           (fun x => isPinning x.1 && (x.2 == .stall || x.2 == .noProgress)) = true := by simpa using h
-      simp [stall_times_out_partial i h'.1 hk2 h'.2]
+      simp [stall_times_out i h'.1 h'.2]
     · simp [h]
   have c8 : cReturns o = true := by
     unfold cReturns; rw [hres]
@@ -385,61 +697,53 @@ theorem holds_iff (i : Input) (o : Output) : holds i o = true ↔
     cUnpinAbsentOk_iff, cStallTimesOut_iff, cReturns_iff, cUpdateOnlyIfRecursive_iff,
     cUpdateUnpinFalse_iff, cSourceKept_iff]
 
-/-! ### the finding: the full statement is false -/
-
-/-- witness: source 1 recursively pinned, pin/update never answered: the connector returns only
-when the caller's context ends. -/
-def witnessUpdateStall : Input :=
-  { op := .pin, n := 2, cid := 0, depth := -1, modeRec := true, src := some 1, norig := 0,
-    unpinDisable := false, table := fun c => if c = 1 then .r else .u, script := [.ok, .ok, .st] }
-
-theorem C16_full_fails_updateStall :
-    wf witnessUpdateStall = true ∧ allowed witnessUpdateStall (obs witnessUpdateStall []) = true ∧
-      cStallTimesOut witnessUpdateStall (obs witnessUpdateStall []) = false := by decide
-
-theorem C16_full_fails : ¬ C16_full := by
-  intro h
-  have := h witnessUpdateStall (obs witnessUpdateStall []) (by decide) (by decide)
-  revert this
-  decide
-
 /-! ### the hypotheses are met by non-trivial inputs -/
 
 /-- a recursive pin with an update source that the daemon holds recursively: three requests, pin/update -/
 def exUpdate : Input :=
   { op := .pin, n := 3, cid := 0, depth := -1, modeRec := true, src := some 1, norig := 12,
     unpinDisable := false, table := fun c => if c = 1 then .r else if c = 2 then .d else .u,
-    script := [.ok, .ok, .ok] }
+    script := [Beh.ok, Beh.ok, Beh.ok] }
 
 example :
-    wf exUpdate = true ∧ updateStalled exUpdate = false ∧
+    wf exUpdate = true ∧
       (run exUpdate).trace = [.ls 0 true, .ls 1 true, .upd 1 0 false] ∧ (run exUpdate).res = .ok ∧
       (run exUpdate).final 0 = .r ∧ (run exUpdate).final 1 = .r ∧ (run exUpdate).swarmMax = 10 := by decide
+
+/-- the former finding K28: source recursively pinned, pin/update never answered: now an error -/
+def exUpdateStall : Input :=
+  { op := .pin, n := 2, cid := 0, depth := -1, modeRec := true, src := some 1, norig := 0,
+    unpinDisable := false, table := fun c => if c = 1 then .r else .u,
+    script := [Beh.ok, Beh.ok, ⟨200, .none, .empty, .stallHeaders⟩] }
+
+example :
+    wf exUpdateStall = true ∧ (run exUpdateStall).trace = [.ls 0 true, .ls 1 true, .upd 1 0 false] ∧
+      (run exUpdateStall).res = .err ∧ (run exUpdateStall).final 0 = .u := by decide
 
 /-- a direct pin whose pin/add stream stalls after some progress: error, nothing pinned -/
 def exStall : Input :=
   { op := .pin, n := 2, cid := 0, depth := 0, modeRec := false, src := none, norig := 0,
-    unpinDisable := false, table := fun _ => .i, script := [.e, .ps] }
+    unpinDisable := false, table := fun _ => .i, script := [⟨500, .json, .errObj .other, .full⟩, ⟨200, .json, .nonJson, .stallBody⟩] }
 
 example :
-    wf exStall = true ∧ updateStalled exStall = false ∧
+    wf exStall = true ∧
       (run exStall).trace = [.ls 0 false, .add 0 false none true] ∧ (run exStall).res = .err ∧
       (run exStall).final 0 = .i := by decide
 
 /-- pin/add answered by a 200 stream that carries an error: reported as an error, nothing pinned -/
 def exStreamErr : Input :=
   { op := .pin, n := 1, cid := 0, depth := -1, modeRec := true, src := none, norig := 0,
-    unpinDisable := false, table := fun _ => .u, script := [.ok, .serr] }
+    unpinDisable := false, table := fun _ => .u, script := [Beh.ok, ⟨200, .json, .serr, .full⟩] }
 
 example :
-    wf exStreamErr = true ∧ updateStalled exStreamErr = false ∧
+    wf exStreamErr = true ∧
       (run exStreamErr).trace = [.ls 0 true, .add 0 true none true] ∧ (run exStreamErr).res = .err ∧
       (run exStreamErr).final 0 = .u := by decide
 
 /-- unpinning an only indirectly pinned CID: the daemon says "not pinned", the connector says ok -/
 def exUnpinAbsent : Input :=
   { op := .unpin, n := 1, cid := 0, depth := -1, modeRec := true, src := none, norig := 0,
-    unpinDisable := false, table := fun _ => .i, script := [.ok] }
+    unpinDisable := false, table := fun _ => .i, script := [Beh.ok] }
 
 example : wf exUnpinAbsent = true ∧ (run exUnpinAbsent).trace = [.rm 0] ∧ (run exUnpinAbsent).res = .ok := by
   decide
